@@ -526,6 +526,22 @@ def corruptions(rng, cur):
                 if shape == "same" and len(new_items) != n:
                     d["shape"] = [len(new_items)]
             return d
+        def bump(i):
+            # another valid element: a rejected call that has already stored some elements must show
+            if i["t"] == "lit" and isinstance(i["v"], float):
+                return L(i["v"] + 1.5)
+            if i["t"] == "lit" and isinstance(i["v"], int) and not isinstance(i["v"], bool):
+                return L(i["v"] + 1)
+            return i
+        if n >= 2:
+            changed = [bump(i) for i in items]
+            for pos in sorted({n - 1, rng.randrange(1, n)}):     # new valid values, then a bad element
+                d = mk(changed[:pos] + [rng.choice(BAD_ELEMS)] + changed[pos + 1:])
+                if t == "array":
+                    d["dtype"] = "object"
+                out.append(d)
+            out.append(mk(changed[:-1], "flat"))
+            out.append(mk(changed + [changed[0]], "flat"))
         if n:
             out.append(mk(items[:-1], "flat"))                    # one element short
             for pos in sorted({0, n - 1, rng.randrange(n)}):    # a bad element at the start / end / somewhere
@@ -1507,6 +1523,11 @@ def replay_case(case, env, want_pending=False):
     info = {"raised": name, "pending": ses.pending}
     if name is None or (isinstance(name, str) and name.startswith("unbuildable")):
         return None, info
+    for st in case.get("after_calls", []):
+        try:
+            ses.call({k: v for k, v in st.items() if k != "raised"}, trace=False)
+        except Desync as e:
+            return {"kind": "later-call", "diff": [str(e)]}, info
     for st in case.get("after", []):
         try:
             ses.apply_edit(st["edit"])
@@ -1811,6 +1832,96 @@ def _report_later(ctx, env, ses, d, failures, seen_fail, stats, blind=False):
         _report(ctx, env, case, d, failures, seen_fail)
 
 
+def focus_search(ctx, env, key, stats, failures, seen_fail, deadline):
+    """the analysis names `key` as a setter that mutates before a statement that may raise: look for a concrete
+    failing input near it — every receiver, every candidate argument, and after a rejected call the other
+    setters of the same object (a value stored by the rejected call may only show after a neighbouring edit)"""
+    E = env["E"]
+    e = E[key]
+    rng = random.Random(f"{ctx.seed}:{PROP}:focus:{key}")
+    texts = [RICH] + [gen_text(rng)[0] for _ in range(3)]
+    found = 0
+    for text in texts:
+        try:
+            ses0 = Session(text, env)
+        except Exception:
+            continue
+        for lab in receivers(e, ses0.snapA):
+            cands = []
+            for _ in range(3):
+                cands += candidates(rng, e, lab, ses0.snapA, ses0.snapB, False)
+            if e.nargs() >= 1:
+                cands += [("wrong type", [sp]) for sp in type_pool(rng, ses0.snapA)]
+                cands += [("out of range", [sp]) for sp in range_pool()]
+            seen = set()
+            ses = None
+            for cls, args in cands:
+                k = json.dumps(args, sort_keys=True, default=str)
+                if k in seen or time.time() > deadline:
+                    continue
+                seen.add(k)
+                try:
+                    if ses is None:
+                        ses = Session(text, env)
+                    step = {"op": "call", "entry": key, "label": lab, "args": args, "cls": cls}
+                    npend = len(ses.pending)
+                    name = ses.call(step, trace=True)
+                    if name is None:
+                        ses = None          # accepted: the problems have changed, start again
+                        continue
+                    if name.startswith("unbuildable"):
+                        continue
+                    stats.call(key, cls, name, args)
+                    ctx.count_case(("focus", key, cls, k[:80], name))
+                    pend = ses.pending[npend:]
+                    if not (pend and pend[-1]["targets"]):
+                        continue            # the trace shows no mutation statement before the raise
+                    d = ses.compare()
+                    case = {"text": text, "blind": False, "steps": [], "call": ses.steps[-1]}
+                    if d is None:
+                        # neighbouring valid edits on the same object, on both problems
+                        obj = ses.snapA.objs.get(lab)
+                        for k2, e2 in E.items():
+                            if e2.kind not in ("setter", "generated") or k2 == key or obj is None:
+                                continue
+                            if not any(c.__name__ == e2.cls for c in type(obj).__mro__) or defining_class(obj, e2.name) != e2.cls:
+                                continue
+                            cur = _read_both(e2.name, lab, ses.snapA, ses.snapB)
+                            if cur is None:
+                                continue
+                            vals = [cur]
+                            if cur["t"] == "lit" and isinstance(cur["v"], bool):
+                                vals = [L(not cur["v"]), cur]
+                            for v in vals:
+                                st2 = {"op": "call", "entry": k2, "label": lab, "args": [v], "cls": "valid"}
+                                n2 = ses.call(st2, trace=False)
+                                if n2 is None:
+                                    d = ses.compare()
+                                    if d is not None:
+                                        case = {"text": text, "blind": False, "steps": [], "call": step,
+                                                "after_calls": [st2]}
+                                        break
+                            if d is not None:
+                                break
+                        ses = None
+                    if d is not None:
+                        ses = None
+                        fail = {"kind": d["kind"], "case": case, "diff": d["diff"], "entry": key, "class": cls, "raised": name,
+                                "note": "found by the search around a setter the analysis rejects"}
+                        failures.setdefault(key, []).append(fail)
+                        ctx.fail(fail)
+                        found += 1
+                        if found >= 3:
+                            return found
+                except Desync:
+                    ses = None
+                    continue
+                except Exception:
+                    ses = None
+                    continue
+    return found
+
+
 def check_pending(ctx, env, pending, failing, stats, sample):
     """the model against the traced real calls"""
     if not pending:
@@ -1955,6 +2066,10 @@ def run(ctx):
                     corpus_failed.append(f)
                     ctx.fail({"kind": d["kind"], "case": c, "diff": d["diff"], "entry": c["call"].get("entry"),
                               "class": c["call"].get("cls"), "corpus": f})
+    focus_found = {}
+    for key in new_failing:
+        if key in E:
+            focus_found[key] = focus_search(ctx, env, key, stats, failures, seen_fail, time.time() + (20 if quick else 120))
     budget = 40 if quick else 780
     deadline = time.time() + budget
     max_rounds = 10 ** 9
@@ -2012,7 +2127,7 @@ def run(ctx):
         "entries that cannot be rejected (no may-raise statement in the IR; none observed)": sorted(cannot),
         "collection entries exercised": sorted(k for k in stats.by_entry if k in coll_keys),
         "correspondence": corr, "corpus_failed": corpus_failed,
-        "translator claims used": len(G["notes"]), "time marks (s)": marks,
+        "translator claims used": len(G["notes"]), "time marks (s)": marks, "focus search": focus_found,
     }
     return ctx.finish(TRUSTED, ASSUMPTIONS, RULE, extra=extra)
 
